@@ -230,6 +230,8 @@ use top::Topology;
 pub use top::{LinkIter, LinksIter, SentRef};
 
 mod world;
+#[cfg(turmoil_verif)]
+pub mod verif;
 use world::World;
 
 const TRACING_TARGET: &str = "turmoil";
